@@ -718,3 +718,11 @@ func init() {
 		mutant{"benign:result-cut-with-min", "pkg/engine/ops.go", "\tif len(finalRes) > k {\n\t\tfinalRes = finalRes[:k]\n\t}\n", "\tfinalRes = finalRes[:min(k, len(finalRes))]\n", "silent", ""},
 	)
 }
+
+func init() {
+	addMutants("C07",
+		mutant{"bulk-insert-searches-the-whole-batch-first", "pkg/core/hnsw/hnsw_index.go", "\tfor roundStart, roundSize := 0, 1; roundStart < len(allNewNodes); {\n", "\t{\n\t\troundStart, roundSize := 0, len(allNewNodes)\n", "GRD-batchrounds", "search-and-commit-in-one-loop"},
+		mutant{"bulk-insert-in-one-round", "pkg/core/hnsw/hnsw_index.go", "\tfor roundStart, roundSize := 0, 1; roundStart < len(allNewNodes); {\n", "\tfor roundStart, roundSize := 0, len(allNewNodes); roundStart < len(allNewNodes); {\n", "GRD-batchrounds", "search-and-commit-in-one-loop"},
+		mutant{"benign:bulk-rounds-start-with-a-larger-seed", "pkg/core/hnsw/hnsw_index.go", "const batchLinkSeed = 32\n", "const batchLinkSeed = 64\n", "silent", ""},
+	)
+}
